@@ -262,6 +262,10 @@ def r2_tree_follows_storage(ctx):
                                         for o2 in s2["ops"]:
                                             if cfg.op_place(o2):
                                                 stack_.append(cfg.place_local(cfg.op_place(o2)))
+                                    elif t2 and s2.get("k") == "call" and re.search(r"(saturating_|checked_|wrapping_|overflowing_)?(sub|add)$|^(min|max|unwrap_or|unwrap_or_default)$", cname(s2)):
+                                        for o2 in s2.get("args") or []:
+                                            if cfg.op_place(o2):
+                                                stack_.append(cfg.place_local(cfg.op_place(o2)))
                     positional = any(cname(ct) in ("offset", "start", "stream_position", "position", "seek") for _b, _i, ct in sl.calls)
                     k2 = key + "|file-cut-accumulates"
                     if self_dep or positional:
